@@ -123,7 +123,10 @@ impl Prop for C03 {
          one error event and one print event."
     }
 
-    fn run_case(&mut self, _idx: u64, rng: &mut Rng, ctx: &mut Ctx) {
+    fn run_case(&mut self, idx: u64, rng: &mut Rng, ctx: &mut Ctx) {
+        if idx % 12 == 11 {
+            return self.edge_case(rng, ctx);
+        }
         let o = Opts { data: true, func: true, tron: rng.coin(), stop: true, max_lines: 24, input: true, frac: rng.coin() };
         let p = gen::generate(rng, o);
         let plines = gen::render_spelled(&p, rng.next_u64());
@@ -234,6 +237,22 @@ impl Prop for C03 {
                             _ => ready = false,
                         }
                     }
+                    if waiting_input && rng.chance(1, 4) {
+                        // break at the prompt / key wait, then continue into it
+                        waiting_input = false;
+                        guarded!("interrupt".to_string(), s.interrupt());
+                        let mut at_prompt = false;
+                        for _ in 0..8 {
+                            if let Some(Stop::Stopped) = guarded!("execute 5000".to_string(), s.step_q(5000)) {
+                                at_prompt = true;
+                                break;
+                            }
+                        }
+                        if at_prompt {
+                            guarded!("enter \"CONT\"".to_string(), s.enter("CONT"));
+                        }
+                        ready = false;
+                    }
                     if waiting_input {
                         waiting_input = false;
                         let r = match rng.usize(6) {
@@ -277,64 +296,172 @@ impl Prop for C03 {
                 }
             }
         }
-        // back to the prompt after at most one interrupt
-        guarded!("interrupt".to_string(), s.interrupt());
-        let mut reached = false;
-        for _ in 0..64 {
-            let st = guarded!("execute 5000".to_string(), s.step_q(5000));
-            match st {
-                Some(Stop::Stopped) => {
-                    reached = true;
+        finish_session(&mut s, &mut script, ctx);
+    }
+}
+
+macro_rules! guard {
+    ($script:expr, $what:expr, $body:expr) => {{
+        $script.push($what);
+        mon::journal(&$script.join("\n"));
+        basic::mach::verif::set_fuel(FUEL);
+        let r = $body;
+        mon::unlimited_fuel();
+        r
+    }};
+}
+
+/// Common end of every C03 session: one interrupt, the prompt must be reached, the next line must work.
+fn finish_session(s: &mut Session, script: &mut Vec<String>, ctx: &mut Ctx) {
+    guard!(script, "interrupt".to_string(), s.interrupt());
+    let mut reached = false;
+    for _ in 0..64 {
+        let st = guard!(script, "execute 5000".to_string(), s.step_q(5000));
+        match st {
+            Some(Stop::Stopped) => {
+                reached = true;
+                break;
+            }
+            Some(Stop::Input(..)) | Some(Stop::Inkey) => {
+                guard!(script, "interrupt".to_string(), s.interrupt());
+            }
+            _ => {}
+        }
+    }
+    let text = script.join("\n");
+    let errs = s.log.iter().filter(|e| matches!(e, Ev::Error(..))).count();
+    let prints = s.log.iter().filter(|e| matches!(e, Ev::Print(..))).count();
+    ctx.eval(&text, script.len() >= 8 && errs > 0 && prints > 0);
+    ctx.add("api_calls", script.len() as u64);
+    ctx.add("events_observed", s.log.len() as u64);
+    ctx.add("error_events", errs as u64);
+    for e in s.log.iter() {
+        if let Ev::Error(d, _, _) = e {
+            ctx.cover("error_messages_seen", &crate::drive::error_name(d));
+        }
+    }
+    if !reached {
+        ctx.violation(
+            "not-at-prompt",
+            "robust:not-at-prompt",
+            &format!("after one interrupt and 64 execute(5000) calls the interpreter is not stopped at the prompt (state {})", s.rt.verif_probe().state),
+            &text,
+        );
+        return;
+    }
+    let mark = s.mark();
+    guard!(script, "enter \"PRINT 7*6\"".to_string(), s.enter("PRINT 7*6"));
+    let mut ok = false;
+    for _ in 0..16 {
+        if let Some(Stop::Stopped) = guard!(script, "execute 5000".to_string(), s.step_q(5000)) {
+            ok = true;
+            break;
+        }
+    }
+    let t = transcript(s.events_since(mark), Norm::STD);
+    if !ok || !t.contains(" 42 ") {
+        ctx.violation(
+            "next-line-not-accepted",
+            "robust:next-line",
+            &format!("after the session PRINT 7*6 gave {:?}", t),
+            &script.join("\n"),
+        );
+    }
+    if ctx.want_sample() {
+        ctx.sample(&text);
+    }
+}
+
+/// Statements tried with the value stack a few cells below its limit.
+const EDGE_STATEMENTS: [&str; 24] = [
+    "INPUT A,B,C,D,E",
+    "INPUT \"P\";A$",
+    "INPUT A",
+    "K$=INKEY$",
+    "PRINT FNA(1,2,3)",
+    "GOSUB 40",
+    "FOR J=1 TO 2:NEXT",
+    "READ A,B,C",
+    "A$=\"X\"+\"Y\":PRINT LEN(A$)",
+    "PRINT 1+2*3-4",
+    "DIM Q(3,3):Q(1,2)=5:PRINT Q(1,2)",
+    "SWAP A,B",
+    "MID$(A$,1)=\"Z\"",
+    "PRINT INSTR(1,\"ABC\",\"C\")",
+    "ON 2 GOSUB 40,40",
+    "WHILE W<2:W=W+1:WEND",
+    "PRINT POS(0);TAB(5);SPC(2)",
+    "DEFINT A-C",
+    "RESTORE 5",
+    "LIST 5",
+    "PRINT MID$(\"ABCDE\",2,2)",
+    "PRINT RND(1)>=0",
+    "STOP",
+    "PRINT 1,2,3,4",
+];
+
+impl C03 {
+    /// The value stack is filled to within a few cells of its 64K limit with abandoned FOR loops and
+    /// GOSUBs, then one ordinary statement runs there; whatever happens must be a BASIC error.
+    fn edge_case(&self, rng: &mut Rng, ctx: &mut Ctx) {
+        let n = 16_370 + rng.range(0, 14);
+        let gosubs = rng.range(0, 3);
+        let stmt = *rng.pick(&EDGE_STATEMENTS[..]);
+        let mut lines: Vec<String> = vec![
+            "5 DATA 1,2,3:DEF FNA(X,Y,Z)=X+Y+Z".to_string(),
+            format!("10 FOR I=1 TO 2:Z=Z+1:IF Z<{} THEN 10", n),
+        ];
+        for g in 0..gosubs {
+            lines.push(format!("{} GOSUB {}", 11 + g, 12 + g));
+        }
+        lines.push(format!("20 {}", stmt));
+        lines.push("30 PRINT \"END\":END".to_string());
+        lines.push("40 RETURN".to_string());
+        let mut s = Session::new();
+        let mut script: Vec<String> = vec![];
+        for _ in 0..4 {
+            guard!(script, "execute 5000".to_string(), s.step_q(5000));
+        }
+        for l in &lines {
+            guard!(script, format!("enter {:?}", l), s.enter(l));
+            for _ in 0..4 {
+                if guard!(script, "execute 5000".to_string(), s.step_q(5000)) == Some(Stop::Stopped) {
                     break;
                 }
+            }
+        }
+        guard!(script, "enter \"RUN\"".to_string(), s.enter("RUN"));
+        let replies = ["1,2,3,4,5", "x", "\"a", "7", ""];
+        let mut max_stack = 0usize;
+        for round in 0..400 {
+            let st = guard!(script, "execute 5000".to_string(), s.step_q(5000));
+            max_stack = max_stack.max(s.rt.verif_probe().stack.len());
+            match st {
+                Some(Stop::Stopped) => break,
                 Some(Stop::Input(..)) | Some(Stop::Inkey) => {
-                    guarded!("interrupt".to_string(), s.interrupt());
+                    if rng.chance(1, 3) {
+                        guard!(script, "interrupt".to_string(), s.interrupt());
+                        let mut at_prompt = false;
+                        for _ in 0..8 {
+                            if guard!(script, "execute 5000".to_string(), s.step_q(5000)) == Some(Stop::Stopped) {
+                                at_prompt = true;
+                                break;
+                            }
+                        }
+                        if at_prompt {
+                            guard!(script, "enter \"CONT\"".to_string(), s.enter("CONT"));
+                        }
+                    } else {
+                        let r = replies[(round + rng.usize(5)) % 5];
+                        guard!(script, format!("enter {:?}", r), s.enter(r));
+                    }
                 }
                 _ => {}
             }
         }
-        let text = script.join("\n");
-        let errs = s.log.iter().filter(|e| matches!(e, Ev::Error(..))).count();
-        let prints = s.log.iter().filter(|e| matches!(e, Ev::Print(..))).count();
-        ctx.eval(&text, script.len() >= 8 && errs > 0 && prints > 0);
-        ctx.add("api_calls", script.len() as u64);
-        ctx.add("events_observed", s.log.len() as u64);
-        ctx.add("error_events", errs as u64);
-        for e in s.log.iter() {
-            if let Ev::Error(d, _, _) = e {
-                ctx.cover("error_messages_seen", &crate::drive::error_name(d));
-            }
-        }
-        if !reached {
-            ctx.violation(
-                "not-at-prompt",
-                "robust:not-at-prompt",
-                &format!("after one interrupt and 64 execute(5000) calls the interpreter is not stopped at the prompt (state {})", s.rt.verif_probe().state),
-                &text,
-            );
-            return;
-        }
-        let mark = s.mark();
-        guarded!("enter \"PRINT 7*6\"".to_string(), s.enter("PRINT 7*6"));
-        let mut ok = false;
-        for _ in 0..16 {
-            if let Some(Stop::Stopped) = guarded!("execute 5000".to_string(), s.step_q(5000)) {
-                ok = true;
-                break;
-            }
-        }
-        let t = transcript(s.events_since(mark), Norm::STD);
-        if !ok || !t.contains(" 42 ") {
-            ctx.violation(
-                "next-line-not-accepted",
-                "robust:next-line",
-                &format!("after the session PRINT 7*6 gave {:?}", t),
-                &script.join("\n"),
-            );
-        }
-        if ctx.want_sample() {
-            ctx.sample(&text);
-        }
+        ctx.cover("edge_statements_at_a_nearly_full_stack", stmt);
+        ctx.max("edge_max_stack_depth", max_stack as u64);
+        finish_session(&mut s, &mut script, ctx);
     }
 }
 
